@@ -24,7 +24,8 @@
 EXTENDS Prec, Json, IOUtils
 
 CONSTANTS Chunks,          \* fan-out
-          TriplePermille   \* share of the scalar triples searched
+          TriplePermille,  \* share of the scalar triples searched
+          MaxTried         \* bound on the assignments looked at per case
 
 VARIABLES vRow, vPick
 
@@ -102,22 +103,24 @@ Verdict(g, os, env, vals, st0) ==
           IN IF \E o \in rs : o.v = Unm \/ (o.v # TErr /\ Obs(o, vals) = Obs(want, vals)) THEN 0
              ELSE IF \E o \in rs : o.v # TErr THEN 2 ELSE 1
 
-RECURSIVE FirstWith(_, _, _, _, _, _, _)
-FirstWith(toks, g, os, cands, n, total, level) ==   \* least assignment number >= n with Verdict >= level, or -1
-  IF n >= total THEN -1
+\* one pass over the assignments n, n+1, ... : stops at the first assignment of verdict 2; remembers
+\* the first of verdict 1 (weak = -1: none so far).  At most MaxTried assignments are looked at.
+RECURSIVE Scan(_, _, _, _, _, _, _)
+Scan(toks, g, os, cands, n, total, weak) ==
+  IF n >= total THEN [n |-> weak, strong |-> FALSE]
   ELSE LET vals == Decode(cands, 1, n)
-       IN IF Verdict(g, os, EnvOf(toks, vals), vals, Store0) >= level THEN n
-          ELSE FirstWith(toks, g, os, cands, n + 1, total, level)
+           v == Verdict(g, os, EnvOf(toks, vals), vals, Store0)
+       IN IF v = 2 \/ (v = 1 /\ os = {}) THEN [n |-> n, strong |-> TRUE]
+          ELSE Scan(toks, g, os, cands, n + 1, total, IF v = 1 /\ weak < 0 THEN n ELSE weak)
 
 Search(toks) ==
   LET cands == SlotCands(toks)
       total == Product(cands, 1)
       g == Group(toks)
       os == AllTrees(toks) \ {g}
-      strong == IF os = {} THEN -1 ELSE FirstWith(toks, g, os, cands, 0, total, 2)
-      n == IF strong >= 0 THEN strong ELSE FirstWith(toks, g, os, cands, 0, total, 1)
-  IN IF n < 0 THEN [found |-> FALSE, vals |-> <<>>, tried |-> total]
-     ELSE [found |-> TRUE, vals |-> Decode(cands, 1, n), tried |-> total]
+      r == Scan(toks, g, os, cands, 0, IF total > MaxTried THEN MaxTried ELSE total, -1)
+  IN IF r.n < 0 THEN [found |-> FALSE, vals |-> <<>>, tried |-> total]
+     ELSE [found |-> TRUE, vals |-> Decode(cands, 1, r.n), tried |-> total]
 
 \* ------------------------------------------------------------ the searched families
 A == Opd("a")
@@ -227,32 +230,6 @@ Pick(r) ==
           IN [found |-> TRUE, names |-> nms, vals |-> [p \in 1..Len(nms) |-> IdiomEnv[nms[p]]],
               env |-> IdiomEnv, tried |-> 1]
 
-Init == vRow = 0 /\ vPick = <<>>
-Next == \/ vRow = 0 /\ vRow' \in {-c : c \in 1..Chunks} /\ vPick' = <<>>
-        \/ vRow < 0 /\ vRow' \in {i \in 1..NRows : i % Chunks = (-vRow) % Chunks} /\ vPick' = Pick(vRow')
-Spec == Init /\ [][Next]_<<vRow, vPick>>
-
-\* laws ---------------------------------------------------------------------
-InRow == vRow > 0
-Cur == RowToks(vRow)
-\* every row is a well-formed determined sequence, grouped the same way by all three formulations
-InvShape == InRow => /\ Accepted(Cur) /\ Determined(Cur)
-                     /\ Climb(Cur) = Group(Cur) /\ UniqueAdmissible(Cur)
-\* a chosen assignment really discriminates: the prescribed grouping evaluates to a first-order
-\* value, no alternative is outside the model, every alternative is rejected or differs
-InvDiscriminates ==
-  InRow /\ vPick.found =>
-    LET want == Ev(Group(Cur), vPick.env, Store0)
-    IN /\ ~IsBad(want.v) /\ FirstOrder(want.v)
-       /\ \A t \in Others(Cur) :
-            LET o == Ev(t, vPick.env, Store0)
-            IN o.v # Unm /\ (o.v = TErr \/ Obs(o, vPick.vals) # Obs(want, vPick.vals))
-\* the hand-written idioms are all usable
-InvIdioms == InRow /\ vRow > NSearched => vPick.found
-\* evaluation is a function of the tree: the two other formulations of the grouping give the same value
-InvEvalAgrees == InRow /\ vPick.found =>
-                   Ev(Climb(Cur), vPick.env, Store0) = Ev(Group(Cur), vPick.env, Store0)
-
 \* ------------------------------------------------------------ emission
 RECURSIVE WireV(_)
 WireV(v) ==
@@ -275,9 +252,8 @@ Strength(toks, env, vals) ==
   IF Others(toks) = {} THEN "value"
   ELSE IF \E t \in Others(toks) : Ev(t, env, Store0).v # TErr THEN "both" ELSE "one"
 
-WireCase(r) ==
+WireCase(r, pk) ==
   LET toks == RowToks(r)
-      pk == Pick(r)
   IN IF ~pk.found
      THEN [id |-> r, fam |-> RowFam(r), found |-> FALSE, text |-> CatSep([x \in 1..Len(toks) |-> SrcText(toks[x])], " "),
            tried |-> pk.tried]
@@ -289,8 +265,40 @@ WireCase(r) ==
            strength |-> Strength(toks, pk.env, pk.vals), tried |-> pk.tried]
 
 Out == IOEnv.VERIF_OUT
+Init == vRow = 0 /\ vPick = <<>>
+Next == \/ vRow = 0 /\ vRow' \in {-c : c \in 1..Chunks} /\ vPick' = <<>>
+        \/ /\ vRow < 0
+           /\ \E i \in {x \in 1..NRows : x % Chunks = (-vRow) % Chunks} :
+                LET pk == Pick(i)
+                IN /\ vRow' = i
+                   /\ vPick' = pk
+                   \* the row's case is written when the row is computed (one file per row; the
+                   \* search is not repeated in a post-condition)
+                   /\ ndJsonSerialize(Out \o "/rows/" \o ToString(i) \o ".ndjson", <<WireCase(i, pk)>>)
+Spec == Init /\ [][Next]_<<vRow, vPick>>
+
+\* laws ---------------------------------------------------------------------
+InRow == vRow > 0
+Cur == RowToks(vRow)
+\* every row is a well-formed determined sequence, grouped the same way by all three formulations
+InvShape == InRow => /\ Accepted(Cur) /\ Determined(Cur) /\ Settled(Cur)
+                     /\ Climb(Cur) = Group(Cur) /\ UniqueAdmissible(Cur)
+\* a chosen assignment really discriminates: the prescribed grouping evaluates to a first-order
+\* value, no alternative is outside the model, every alternative is rejected or differs
+InvDiscriminates ==
+  InRow /\ vPick.found =>
+    LET want == Ev(Group(Cur), vPick.env, Store0)
+    IN /\ ~IsBad(want.v) /\ FirstOrder(want.v)
+       /\ \A t \in Others(Cur) :
+            LET o == Ev(t, vPick.env, Store0)
+            IN o.v # Unm /\ (o.v = TErr \/ Obs(o, vPick.vals) # Obs(want, vPick.vals))
+\* the hand-written idioms are all usable
+InvIdioms == InRow /\ vRow > NSearched => vPick.found
+\* evaluation is a function of the tree: the two other formulations of the grouping give the same value
+InvEvalAgrees == InRow /\ vPick.found =>
+                   Ev(Climb(Cur), vPick.env, Store0) = Ev(Group(Cur), vPick.env, Store0)
+
 Emit ==
   /\ TLCGet("stats").distinct > 0
-  /\ ndJsonSerialize(Out \o "/prec_values.ndjson", [r \in 1..NRows |-> WireCase(r)])
   /\ PrintT(<<"VROWS", ToJson([searched |-> NSearched, idioms |-> Len(Idioms)])>>)
 =============================================================================
